@@ -308,7 +308,11 @@ def check(prop, tier, seed):
     import vpkani
     kani = []
     if prop in vpkani.HARNESSES:
-        kf = os.path.join(cdir, 'kani_%s.json' % prop)
+        # the Kani harnesses only depend on src/node_id.rs: cache on that file (plus the harness text)
+        hk = hashlib.sha256()
+        for pth in [os.path.join(D.REPO, 'src', 'node_id.rs')] + sorted(glob.glob(os.path.join(D.VERIF, 'kani', '*'))) + [os.path.join(D.VERIF, 'lib', 'vpkani.py')]:
+            hk.update(open(pth, 'rb').read())
+        kf = os.path.join(CACHE, 'kani_%s_%s.json' % (prop, hk.hexdigest()[:16]))
         if os.path.exists(kf):
             kani = json.load(open(kf))
         else:
